@@ -102,7 +102,7 @@ func runProm(seed int64, n int) {
 		for s := 0; s < nser; s++ {
 			v := floats[r.Intn(len(floats))]
 			lv := pickValid(r, class)
-			if strings.Contains(lv, "$") {
+			if strings.ContainsAny(lv, "$\ufffd") { // `$` expands in label_replace; the PromQL lexer rejects U+FFFD in the query text
 				lv = "x"
 			}
 			if len(lv) > 500 {
